@@ -22,6 +22,7 @@ func (t Term) String() string { return t.S }
 // Universe holds everything that is global to one govc run: sort declarations,
 // string literals, type tags, uninterpreted function declarations.
 type Universe struct {
+	stage1Only  bool            // Solve stops after the short race (canaries whose outcome only feeds a note)
 	retryLite   bool            // second-chance pass of main: reduced set of solver variants
 	sortDecls   []string        // in dependency order
 	sortSeen    map[string]bool // sort name -> declared
